@@ -98,6 +98,9 @@ def run(idx: ProgramIndex, rep: Report, tier: str):
     override_coverage(idx, rep)
     mll_scaling(idx, rep)
     covariance_consumes(idx, rep)
+    rep.rule("C16-7", "the NaN entries that record which observations are missing survive every consumer: no in-place update of cached tensors, object-owned tensors or the caller's targets (storage/version domain)")
+    from .common_alias import aliasing_obligations
+    aliasing_obligations(idx, rep, "C16-7", sorted(consumers, key=lambda f: (f.module.name, f.qualname)), 5, "policy consumers interpreted for in-place updates")
 
 
 # ---- C16-1 ---------------------------------------------------------------------------------------------------------
